@@ -20,6 +20,7 @@ func c04Healthy(r *rng, id string) {
 	c.indirect = []int{0, 1, 3}[r.intn(3)]
 	c.tcpPings = r.chance(1, 2)
 	c.pushPull = []time.Duration{5 * time.Second, 15 * time.Second}[r.intn(2)]
+	c.mixedProto = r.chance(1, 2)
 	cl, err := newSimCluster(r, n, c)
 	if err != nil {
 		emit("C04 sim id=%s err=create", id)
